@@ -1,7 +1,8 @@
 /-
 Driver/C06.lean — line-protocol driver for C06 (grouping and aggregation).
 in : {"case": n, "table": Table, "steps": [GStep]}
-out: {"case": n, "wf": bool, "model": table, "spec": table, "scope": [violated hypothesis names]}
+out: {"case": n, "wf": bool, "model": table, "modelErr": bool (the engine rejects a statement of the chain),
+      "spec": table, "scope": [violated hypothesis names]}
 in : {"gen": true}
 out: the generated decisions of Gen.Group as the model sees them
 Pure function of its input lines; evaluates the definitions the theorems of Props/C06.lean are about.
@@ -21,11 +22,23 @@ def handleCase (c : Case) : String :=
     ("case", toJson c.case),
     ("wf", toJson (decide (c.table.WF ∧ GStepsWF c.table c.steps))),
     ("model", d.eval.toPlain),
+    ("modelErr", toJson ((DF.init c.table).runGErr c.steps)),
     ("spec", (specRunG c.table c.steps).toPlain),
     ("scope", toJson (violatedC06 c.table c.steps))])
 
+def keyClasses : List KeyClass := [.strLit, .numLit, .boolLit, .nullLit, .column, .other]
+
+/-- expressions whose class the check compares with the class sqlglot gives the same key -/
+def keyClassProbes : List Sqlframe.Expr :=
+  [.lit (.str "a"), .lit (.str ""), .lit (.int 1), .lit (.int 0), .lit (.int (-1)), .lit (.bool true), .lit (.bool false), .lit .null,
+   .col "k", .bin .add (.lit (.int 1)) (.lit (.int 1)), .bin .add (.col "k") (.lit (.int 1)), .bin .gt (.col "k") (.lit (.int 0)),
+   .isNull (.col "k"), .neg (.col "k"), .not (.bin .gt (.col "k") (.lit (.int 0))), .ite (.bin .gt (.col "k") (.lit (.int 0))) (.lit (.int 1)) (.lit (.int 2))]
+
 def handleGen : String :=
   Json.compress (Json.mkObj [
+    ("groupByKeeps", Json.arr (keyClasses.map (fun c => toJson [reprStr c, toString (groupByKeeps c)])).toArray),
+    ("groupingSetKeeps", Json.arr (keyClasses.map (fun c => toJson [reprStr c, toString (groupingSetKeeps c)])).toArray),
+    ("keyClassProbes", Json.arr (keyClassProbes.map (fun e => toJson (reprStr (keyClass e)))).toArray),
     ("shortcutTable", Json.arr (shortcutTable.map (fun e => toJson [e.1, e.2])).toArray),
     ("shortcutAliasExample", toJson (shortcutAlias "FN" "COL")),
     ("countAlias", toJson countAlias),
